@@ -73,6 +73,16 @@ func (x *exec_) expand(s string, now int64) string {
 func (x *exec_) run(k int, st *step) *stepObs {
 	now := time.Now().UnixMilli()
 	o := &stepObs{E: "step", Sid: x.sc.Sid, K: k, Do: st.Do, Name: st.Name, T: now, Class: "none", JSON: []any{}}
+	if st.Until != nil {
+		u := map[string]any{}
+		for k, v := range st.Until {
+			if sv, ok := v.(string); ok {
+				v = x.expand(sv, now)
+			}
+			u[k] = v
+		}
+		st = &step{Do: st.Do, Name: st.Name, Group: st.Group, ID: st.ID, Ms: st.Ms, Until: u}
+	}
 	switch st.Do {
 	case "http":
 		x.doHTTP(o, st, now)
@@ -82,14 +92,21 @@ func (x *exec_) run(k int, st *step) *stepObs {
 		time.Sleep(time.Duration(st.Ms) * time.Millisecond)
 		o.Alive = x.srv.aliveAfter(0)
 	case "probe":
-		ok, code := x.srv.probe(2 * time.Second)
+		ok, code := x.srv.probe(10 * time.Second)
 		o.Replied, o.Code = ok, code
 		o.Class = httpClass(ok, code)
 		o.Alive = x.srv.aliveAfter(0) && ok
 	case "listen":
 		x.doListen(o, st)
 	case "received":
-		x.doReceived(o, st)
+		deadline := time.Now().Add(time.Duration(st.Ms) * time.Millisecond)
+		for {
+			x.doReceived(o, st)
+			if st.Until == nil || receivedHas(o.JSON, st.Until) || !time.Now().Before(deadline) || !x.srv.running() {
+				break
+			}
+			time.Sleep(40 * time.Millisecond)
+		}
 	case "kill":
 		gone := x.srv.signal(syscall.SIGKILL, 5*time.Second)
 		o.Replied = gone
@@ -98,7 +115,7 @@ func (x *exec_) run(k int, st *step) *stepObs {
 		}
 		o.Alive = x.srv.running()
 	case "term":
-		gone := x.srv.signal(syscall.SIGTERM, 5*time.Second)
+		gone := x.srv.signal(syscall.SIGTERM, 20*time.Second)
 		o.Replied = gone
 		if gone {
 			o.Code = x.srv.exitCode()
@@ -107,15 +124,26 @@ func (x *exec_) run(k int, st *step) *stepObs {
 	case "start":
 		if x.srv.running() {
 			o.Body = "procx: already running"
-			o.Replied = x.srv.waitReady(5 * time.Second)
+			o.Replied = x.srv.waitReady(20 * time.Second)
 		} else if err := x.srv.start(); err != nil {
 			o.Body = "procx: " + err.Error()
 		} else {
-			o.Replied = x.srv.waitReady(5 * time.Second)
+			o.Replied = x.srv.waitReady(20 * time.Second)
 		}
 		o.Alive = x.srv.aliveAfter(0)
 	case "rows":
-		o.JSON = dbRows(x.srv.db)
+		// the rows of the database file; with "until" the look is repeated (every 40 ms, at most ms
+		// milliseconds) until the named row is in the named state: on a loaded machine background
+		// work takes as long as it takes, what is reported is what is there in the end
+		deadline := time.Now().Add(time.Duration(st.Ms) * time.Millisecond)
+		for {
+			rows := dbRows(x.srv.db)
+			o.JSON = rows
+			if st.Until == nil || rowsHave(rows, st.Until) || !time.Now().Before(deadline) || !x.srv.running() {
+				break
+			}
+			time.Sleep(40 * time.Millisecond)
+		}
 		o.Replied = true
 		o.Alive = x.srv.aliveAfter(0)
 	case "burst":
@@ -221,7 +249,7 @@ func (x *exec_) httpOnce(o *stepObs, st *step, now int64) {
 	req.Close = true
 	client := &http.Client{
 		Transport:     &http.Transport{DisableKeepAlives: true, DisableCompression: true},
-		Timeout:       3 * time.Second,
+		Timeout:       10 * time.Second,
 		CheckRedirect: func(*http.Request, []*http.Request) error { return http.ErrUseLastResponse },
 	}
 	res, err := client.Do(req)
@@ -260,7 +288,7 @@ func (l *listener) snapshot() []string {
 	return append([]string(nil), l.data...)
 }
 
-var sseClient = &http.Client{Transport: &http.Transport{DisableKeepAlives: true, DisableCompression: true, ResponseHeaderTimeout: 2 * time.Second}}
+var sseClient = &http.Client{Transport: &http.Transport{DisableKeepAlives: true, DisableCompression: true, ResponseHeaderTimeout: 10 * time.Second}}
 
 func (x *exec_) doListen(o *stepObs, st *step) {
 	defer func() { o.Alive = x.srv.aliveAfter(aliveDelay) }()
@@ -367,6 +395,45 @@ func dbCounts(path string) map[string]any {
 	out["pendingPromises"] = count(`SELECT COUNT(*) FROM promises WHERE state = 1`)
 	out["orphanCallbacks"] = count(`SELECT COUNT(*) FROM callbacks c LEFT JOIN promises p ON p.id = c.promise_id WHERE p.id IS NULL OR p.state != 1`)
 	return out
+}
+
+// rowsHave: is the row named by until ({"table": ..., "id"/"sched": ..., "state": n}) there?
+func rowsHave(rows map[string]any, until map[string]any) bool {
+	table, _ := until["table"].(string)
+	list, _ := rows[table].([]any)
+	for _, r := range list {
+		m, _ := r.(map[string]any)
+		ok := true
+		for k, v := range until {
+			if k == "table" {
+				continue
+			}
+			switch want := v.(type) {
+			case float64:
+				got, _ := m[k].(int64)
+				ok = ok && got == int64(want)
+			default:
+				ok = ok && m[k] == v
+			}
+		}
+		if ok {
+			return true
+		}
+	}
+	return false
+}
+
+// receivedHas: has a message for the task named by until ({"task": id}) arrived?
+func receivedHas(v any, until map[string]any) bool {
+	list, _ := v.([]any)
+	for _, e := range list {
+		m, _ := e.(map[string]any)
+		t, _ := m["task"].(map[string]any)
+		if t != nil && t["id"] == until["task"] {
+			return true
+		}
+	}
+	return false
 }
 
 // dbRows: the identifying columns of every row, read from the database file itself.
